@@ -64,6 +64,27 @@ def declare(hps, spec, objs, rng, only=None):
         else: objs.append(ent[-1] if ent else None)
 
 
+def declare_lazy(hps, spec):
+    """the define-by-run pattern `if hp.get(parent) in values: declare the child`: an entry is declared only by a trial in
+    which its whole chain of conditions holds (parent values were fixed when the full tree was generated)"""
+    def chain(i):
+        p = spec[i][3]
+        return [] if p is None else chain(p) + [(p, spec[i][4])]
+    for i, (name, kind, args, parent, _) in enumerate(spec):
+        ch = chain(i)
+        if not all(spec[p][0] in hps.values and any(hps.values[spec[p][0]] == x for x in vals) for p, vals in ch):
+            continue
+        with contextlib.ExitStack() as st:
+            for (p, vals) in ch:
+                st.enter_context(hps.conditional_scope(spec[p][0], vals))
+            if kind == "int": hps.Int(name, args[0], args[1])
+            elif kind == "intstep": hps.Int(name, args[0], args[1], step=args[2])
+            elif kind == "intlog": hps.Int(name, args[0], args[1], step=args[2], sampling="log")
+            elif kind == "choice": hps.Choice(name, args[0], default=args[1])
+            elif kind == "bool": hps.Boolean(name, default=args[0])
+            else: hps.Fixed(name, args[0])
+
+
 def hall(hp):
     vl = list(hp.values)
     if hp.default in vl: vl.remove(hp.default)
@@ -177,6 +198,7 @@ def run_case(seed, dynamic=False, family=None):
     cfg = dict(max_retries=rng.choice([0, 0, 1]) if family != "retry" else rng.choice([1, 2, 3]), max_consec=50)
     W = rng.randint(1, 3) if family != "retry" else rng.randint(2, 4)
     p_invalid = 0.15 if family != "retry" else 0.35
+    p_ok = 0.7 if family != "lazy" else 0.45     # lazy: the trial that discovers an entry often fails
     as_copy = rng.random() < 0.35      # end_trial is given a reconstructed copy of the trial, as the chief/worker layer does
     d = tempfile.mkdtemp(prefix="ktv09_")
 
@@ -200,14 +222,16 @@ def run_case(seed, dynamic=False, family=None):
             w = rng.randrange(W); tn = "w%d" % w
             if tn in held and rng.random() < 0.7:
                 t = held.pop(tn); r = rng.random()
-                will_retry = 0.7 <= r < 0.7 + p_invalid and o._run_times[t.trial_id] + 1 <= cfg["max_retries"]
-                if dynamic and family != "samename" and not (family == "retry" and will_retry and rng.random() < 0.6):
+                will_retry = p_ok <= r < p_ok + p_invalid and o._run_times[t.trial_id] + 1 <= cfg["max_retries"]
+                if family == "lazy":
+                    declare_lazy(t.hyperparameters, spec)
+                elif dynamic and family != "samename" and not (family == "retry" and will_retry and rng.random() < 0.6):
                     # the build function declares the whole tree. In the retry family a crashing run that will be retried may die
                     # before it gets there; the last run of a trial always declares (uniform discovery: otherwise the grid cannot
                     # know the combinations below a trial that never told it about them)
                     declare(t.hyperparameters, spec, [None] * len(spec), rng)
-                if r < 0.7: o.update_trial(t.trial_id, {"score": float(rng.randint(-3, 3))}); t.status = "COMPLETED"; oc = "ECompleted"
-                elif r < 0.7 + p_invalid: t.status = "INVALID"; oc = "EInvalid"
+                if r < p_ok: o.update_trial(t.trial_id, {"score": float(rng.randint(-3, 3))}); t.status = "COMPLETED"; oc = "ECompleted"
+                elif r < p_ok + p_invalid: t.status = "INVALID"; oc = "EInvalid"
                 else: t.status = "FAILED"; oc = "EFailed"
                 try:
                     if as_copy:
@@ -232,7 +256,7 @@ def run_case(seed, dynamic=False, family=None):
         if exc:
             viol = ("exception", exc)
         elif len(stopped) == W:
-            final_space = o.hyperparameters
+            final_space = o.hyperparameters if family != "lazy" else full    # lazy: what the build function can declare, whatever the oracle has learnt
             want = [canon(c) for c in all_combos(final_space)]
             got = []
             for i in sorted(o.trials, key=int):
@@ -309,7 +333,7 @@ def run(ctx):
             c = corpus[i + len(corpus)]; seed, dyn, fam = c["seed"], c["dynamic"], c.get("family")
         else:
             seed = ctx.rng.randint(0, 2 ** 40); dyn = i >= n
-            fam = "retry" if dyn and (i - n) % 2 == 1 else "samename" if dyn and (i - n) % 6 == 0 else None
+            fam = "retry" if dyn and (i - n) % 2 == 1 else "samename" if dyn and (i - n) % 6 == 0 else "lazy" if dyn and (i - n) % 6 == 2 else None
         cfg, ops, obs, viol, info = run_case(seed, dynamic=dyn, family=fam)
         stats["dynamic" if dyn else "static"] += 1; stats["ops"] += len(ops); stats["trials"] += info["ntrials"]
         stats["reloads"] += sum(1 for o in ops if o[0] == "reload"); stats["workers"][info["W"]] = stats["workers"].get(info["W"], 0) + 1
@@ -337,7 +361,7 @@ def run(ctx):
                 rule="spaces of 1-4 entries (Int, stepped Int, stepped log Int, Choice with default in or out of first place, Boolean, Fixed) with conditions on earlier "
                      "entries nested to depth 3; 1-3 workers with random finishing orders, COMPLETED / INVALID (retried) / FAILED outcomes, save+reload at quiet points; run until "
                      "every worker is told STOPPED; the static cases are compared step by step with the model, the dynamic ones (part of the tree declared only inside the "
-                     "trials; a sixth of them instead declare one name in several exclusive branches, with equal or different domains; half of them with a non-ascending Choice up front, 2-4 workers, retries and runs that crash before declaring anything) are checked on the implementation; non-trivial = distinct (space, schedule) with >= 3 trials",
+                     "trials; a sixth declare children lazily (only in trials whose values satisfy the parent condition; the combinations expected are those of the full tree), a sixth declare one name in several exclusive branches, with equal or different domains; half of them with a non-ascending Choice up front, 2-4 workers, retries and runs that crash before declaring anything) are checked on the implementation; non-trivial = distinct (space, schedule) with >= 3 trials",
                 samples=infos[:2], failures=failures, stats=stats)
 
 
